@@ -7,16 +7,15 @@ Open Scope Z_scope.
 Module BinP.
   Import Bin.
 
-  (** "matches" on f64 bit patterns: same bits, or both are a zero (+0.0 / -0.0) *)
-  Definition num_eq (ops : numops) (a b : Z) : Prop :=
-    a = b \/ (to_int ops a = Some 0 /\ to_int ops b = Some 0).
-
   (** laws of the numeric casts (NumLaws-style premises; checked on f64 by the tie's cast cases):
-      an integral float converted to an integer (saturating at the top of u64 / i64, where the
-      float 2^64 resp. 2^63 is the rounding of the saturated value) and back matches the float *)
+      an integral float other than negative zero, converted to an integer (saturating at the top of
+      u64 / i64, where the float 2^64 resp. 2^63 is the rounding of the saturated value) and back,
+      is the SAME bit pattern *)
   Record num_laws (ops : numops) : Prop := {
-    L_u : forall n z, to_int ops n = Some z -> 0 <= z <= 2 ^ 64 -> num_eq ops (of_int ops (Z.min z (2 ^ 64 - 1))) n;
-    L_i : forall n z, to_int ops n = Some z -> - 2 ^ 63 <= z <= 2 ^ 63 -> num_eq ops (of_int ops (Z.min z (2 ^ 63 - 1))) n;
+    L_u : forall n z, to_int ops n = Some z -> negzero ops n = false -> 0 <= z <= 2 ^ 64 ->
+          of_int ops (Z.min z (2 ^ 64 - 1)) = n;
+    L_i : forall n z, to_int ops n = Some z -> negzero ops n = false -> - 2 ^ 63 <= z <= 2 ^ 63 ->
+          of_int ops (Z.min z (2 ^ 63 - 1)) = n;
     L_nn : forall n z, nonneg ops n = true -> to_int ops n = Some z -> 0 <= z;
     L_f32 : forall n, 0 <= to_f32 ops n < 2 ^ 32
   }.
@@ -25,13 +24,13 @@ Module BinP.
   Definition zops : numops :=
     {| to_int := fun p => if (0 <=? p) && (p <? 2 ^ 53) then Some p else None;
        nonneg := fun _ => true; of_int := fun z => z;
-       to_f32 := fun p => p mod 2 ^ 32; of_f32 := fun u => u |}.
+       to_f32 := fun p => p mod 2 ^ 32; of_f32 := fun u => u; negzero := fun _ => false |}.
   Lemma zops_laws : num_laws zops.
   Proof.
     assert (P : 2 ^ 53 < 2 ^ 63 - 1 /\ 2 ^ 53 < 2 ^ 64 - 1) by (split; reflexivity).
-    constructor; cbn [to_int nonneg of_int to_f32 zops].
-    - intros n z H Hz. destruct (Z.leb_spec 0 n); destruct (Z.ltb_spec n (2 ^ 53)); inversion H; subst. left. lia.
-    - intros n z H Hz. destruct (Z.leb_spec 0 n); destruct (Z.ltb_spec n (2 ^ 53)); inversion H; subst. left. lia.
+    constructor; cbn [to_int nonneg of_int to_f32 negzero zops].
+    - intros n z H _ Hz. destruct (Z.leb_spec 0 n); destruct (Z.ltb_spec n (2 ^ 53)); inversion H; subst. lia.
+    - intros n z H _ Hz. destruct (Z.leb_spec 0 n); destruct (Z.ltb_spec n (2 ^ 53)); inversion H; subst. lia.
     - intros n z _ H. destruct (Z.leb_spec 0 n); destruct (Z.ltb_spec n (2 ^ 53)); inversion H; subst. assumption.
     - intros n. apply Z.mod_pos_bound. reflexivity.
   Qed.
@@ -42,16 +41,18 @@ Module BinP.
     Variable ops : numops.
     Hypothesis laws : num_laws ops.
 
-    Lemma ints_of_in : forall d zs n, ints_of ops d = Some zs -> In n d ->
-      exists z, to_int ops n = Some z /\ In z zs.
+    Lemma ints_of_in : forall excl d zs n, ints_of ops excl d = Some zs -> In n d ->
+      exists z, to_int ops n = Some z /\ In z zs /\ (excl = true -> negzero ops n = false).
     Proof.
       induction d; intros zs n H Hin; [destruct Hin|].
-      cbn [ints_of fold_right] in H. fold (ints_of ops d) in H.
+      cbn [ints_of fold_right] in H. fold (ints_of ops excl d) in H.
+      destruct (excl && negzero ops a) eqn:Ex; [discriminate|].
       destruct (to_int ops a) eqn:Ea; [|discriminate].
-      destruct (ints_of ops d) eqn:Ed; [|discriminate]. inversion H; subst.
+      destruct (ints_of ops excl d) eqn:Ed; [|discriminate]. inversion H; subst.
       destruct Hin as [->|Hin].
-      - exists z. split; [assumption | left; reflexivity].
-      - destruct (IHd l n eq_refl Hin) as [z' [? ?]]. exists z'. split; [assumption | right; assumption].
+      - exists z. split; [assumption|]. split; [left; reflexivity|].
+        intros ->. cbn [andb] in Ex. assumption.
+      - destruct (IHd l n eq_refl Hin) as [z' (? & ? & ?)]. exists z'. split; [assumption|]. split; [right; assumption | assumption].
     Qed.
 
     Lemma fold_max_ge : forall zs z, In z zs -> z <= fold_right Z.max 0 zs.
@@ -83,13 +84,14 @@ Module BinP.
     Lemma write_num_length : forall t n, length (write_num ops t n) = width_of t.
     Proof. intros t n. destruct t; cbn [write_num width_of]; unfold le; apply digits_length. Qed.
 
-    (** the element written with the chosen type reads back as a matching number
-        (as the same byte when the array is stored as u8) *)
+    (** the element written with the chosen type reads back as the SAME bit pattern
+        (as the byte that denotes it when the array is stored as u8) *)
     Theorem elem_roundtrip : forall d n, Forall wfnum d -> In n d ->
       let t := choose ops d in
       match t with
-      | U8 => to_int ops n = Some (read_num ops t (write_num ops t n))
-      | _ => num_eq ops (read_num ops t (write_num ops t n)) n
+      | U8 => to_int ops n = Some (read_num ops t (write_num ops t n)) /\
+              of_int ops (read_num ops t (write_num ops t n)) = n
+      | _ => read_num ops t (write_num ops t n) = n
       end.
     Proof.
       intros d n Hwf Hin.
@@ -104,9 +106,9 @@ Module BinP.
       assert (Q32 : 2 ^ 32 = 4294967296) by reflexivity.
       assert (Q31 : 2 ^ 31 = 2147483648) by reflexivity.
       assert (Q24 : 2 ^ 24 = 16777216) by reflexivity.
-      unfold choose.
-      destruct (ints_of ops d) as [zs|] eqn:Ei.
-      - destruct (ints_of_in d zs n Ei Hin) as [z [Hz Hzin]].
+      unfold choose, choose_gen.
+      destruct (ints_of ops true d) as [zs|] eqn:Ei.
+      - destruct (ints_of_in true d zs n Ei Hin) as [z (Hz & Hzin & Hnz)]. specialize (Hnz eq_refl).
         pose proof (fold_max_ge zs z Hzin) as Hmx. pose proof (fold_min_le zs z Hzin) as Hmn.
         set (mx := fold_right Z.max 0 zs) in *. set (mn := fold_right Z.min 0 zs) in *.
         destruct (forallb (nonneg ops) d) eqn:Enn.
@@ -115,15 +117,16 @@ Module BinP.
           destruct (Z.leb_spec mx 255); [|destruct (Z.leb_spec mx 65535); [|destruct (Z.leb_spec mx 4294967295);
             [|destruct (Z.leb_spec mx (2 ^ 64)); [|destruct (Z.leb_spec mx (2 ^ 24))]]]];
             cbv zeta; cbn [write_num read_num]; unfold zint, sat; rewrite ?Hz.
-          * rewrite le_horner by (rewrite P8; lia). f_equal. lia.
+          * rewrite le_horner by (rewrite P8; lia). split; [f_equal; lia|].
+            replace (Z.max 0 (Z.min 255 z)) with (Z.min z (2 ^ 64 - 1)) by lia. apply (L_u ops laws); [assumption | assumption | lia].
           * rewrite le_horner by (rewrite P16; lia).
-            replace (Z.max 0 (Z.min 65535 z)) with (Z.min z (2 ^ 64 - 1)) by lia. apply (L_u ops laws); [assumption | lia].
+            replace (Z.max 0 (Z.min 65535 z)) with (Z.min z (2 ^ 64 - 1)) by lia. apply (L_u ops laws); [assumption | assumption | lia].
           * rewrite le_horner by (rewrite P32; lia).
-            replace (Z.max 0 (Z.min 4294967295 z)) with (Z.min z (2 ^ 64 - 1)) by lia. apply (L_u ops laws); [assumption | lia].
+            replace (Z.max 0 (Z.min 4294967295 z)) with (Z.min z (2 ^ 64 - 1)) by lia. apply (L_u ops laws); [assumption | assumption | lia].
           * rewrite le_horner by (rewrite P64; lia).
-            replace (Z.max 0 (Z.min (2 ^ 64 - 1) z)) with (Z.min z (2 ^ 64 - 1)) by lia. apply (L_u ops laws); [assumption | lia].
+            replace (Z.max 0 (Z.min (2 ^ 64 - 1) z)) with (Z.min z (2 ^ 64 - 1)) by lia. apply (L_u ops laws); [assumption | assumption | lia].
           * lia.
-          * left. apply le_horner. rewrite P64. lia.
+          * apply le_horner. rewrite P64. lia.
         + destruct ((-128 <=? mn) && (mx <=? 127)) eqn:E1;
             [|destruct ((-32768 <=? mn) && (mx <=? 32767)) eqn:E2;
               [|destruct ((- 2 ^ 31 <=? mn) && (mx <=? 2 ^ 31 - 1)) eqn:E3;
@@ -134,32 +137,32 @@ Module BinP.
             rewrite le_horner by (rewrite P8; apply Z.mod_pos_bound; reflexivity).
             replace (Z.max (-128) (Z.min 127 z)) with z by lia.
             change (2 ^ 8) with (2 ^ (8 * Z.of_nat 1)). rewrite signed_of_mod by (change (2 ^ (8 * Z.of_nat 1 - 1)) with 128; lia).
-            replace z with (Z.min z (2 ^ 63 - 1)) at 1 by lia. apply (L_i ops laws); [assumption | lia].
+            replace z with (Z.min z (2 ^ 63 - 1)) at 1 by lia. apply (L_i ops laws); [assumption | assumption | lia].
           * apply andb_true_iff in E2. destruct E2 as [A B]. apply Z.leb_le in A, B.
             rewrite le_horner by (rewrite P16; apply Z.mod_pos_bound; reflexivity).
             replace (Z.max (-32768) (Z.min 32767 z)) with z by lia.
             change (2 ^ 16) with (2 ^ (8 * Z.of_nat 2)). rewrite signed_of_mod by (change (2 ^ (8 * Z.of_nat 2 - 1)) with 32768; lia).
-            replace z with (Z.min z (2 ^ 63 - 1)) at 1 by lia. apply (L_i ops laws); [assumption | lia].
+            replace z with (Z.min z (2 ^ 63 - 1)) at 1 by lia. apply (L_i ops laws); [assumption | assumption | lia].
           * apply andb_true_iff in E3. destruct E3 as [A B]. apply Z.leb_le in A, B.
             rewrite le_horner by (rewrite P32; apply Z.mod_pos_bound; reflexivity).
             replace (Z.max (- 2 ^ 31) (Z.min (2 ^ 31 - 1) z)) with z by lia.
             change (2 ^ 32) with (2 ^ (8 * Z.of_nat 4)). rewrite signed_of_mod by (change (2 ^ (8 * Z.of_nat 4 - 1)) with 2147483648; lia).
-            replace z with (Z.min z (2 ^ 63 - 1)) at 1 by lia. apply (L_i ops laws); [assumption | lia].
+            replace z with (Z.min z (2 ^ 63 - 1)) at 1 by lia. apply (L_i ops laws); [assumption | assumption | lia].
           * apply andb_true_iff in E4. destruct E4 as [A B]. apply Z.leb_le in A, B.
             rewrite le_horner by (rewrite P64; apply Z.mod_pos_bound; reflexivity).
             replace (Z.max (- 2 ^ 63) (Z.min (2 ^ 63 - 1) z)) with (Z.min z (2 ^ 63 - 1)) by lia.
             change (2 ^ 64) with (2 ^ (8 * Z.of_nat 8)).
             rewrite signed_of_mod by (change (2 ^ (8 * Z.of_nat 8 - 1)) with 9223372036854775808; lia).
-            apply (L_i ops laws); [assumption | lia].
+            apply (L_i ops laws); [assumption | assumption | lia].
           * (* unreachable: the i64 range contains +-2^24 *)
             apply andb_true_iff in E5. destruct E5 as [A B]. apply Z.leb_le in A, B.
             apply andb_false_iff in E4. destruct E4 as [C|C]; [apply Z.leb_gt in C | apply Z.leb_gt in C]; lia.
-          * left. apply le_horner. rewrite P64. lia.
+          * apply le_horner. rewrite P64. lia.
       - destruct (all_f32 ops d) eqn:Ef; cbv zeta; cbn [write_num read_num].
         + (* the run-time check of the encoder is exactly the round trip *)
           unfold all_f32 in Ef. rewrite forallb_forall in Ef. specialize (Ef n Hin). apply Z.eqb_eq in Ef.
-          left. rewrite le_horner by (rewrite P32; rewrite <- Q32; apply (L_f32 ops laws)). assumption.
-        + left. apply le_horner. rewrite P64. lia.
+          rewrite le_horner by (rewrite P32; rewrite <- Q32; apply (L_f32 ops laws)). assumption.
+        + apply le_horner. rewrite P64. lia.
     Qed.
   End Elem.
 
@@ -168,10 +171,22 @@ Module BinP.
     let t := choose ops d in
     length (write_num ops t n) = width_of t /\
     match t with
-    | U8 => to_int ops n = Some (read_num ops t (write_num ops t n))
-    | _ => num_eq ops (read_num ops t (write_num ops t n)) n
+    | U8 => to_int ops n = Some (read_num ops t (write_num ops t n)) /\
+            of_int ops (read_num ops t (write_num ops t n)) = n
+    | _ => read_num ops t (write_num ops t n) = n
     end.
   Proof.
     intros ops laws d n Hwf Hin. split; [apply write_num_length | apply elem_roundtrip; assumption].
+  Qed.
+
+  (** record of the defect repaired by b303665: with the old selection (negative zero counted as an
+      integer) the array [-0.0] was stored as U8 and read back as the byte 0, i.e. +0.0 *)
+  Theorem negzero_refuted_pre :
+    exists d n, In n d /\ Forall wfnum d /\ choose_pre cops d = U8 /\
+      of_int cops (read_num cops U8 (write_num cops U8 n)) <> n /\ choose cops d = F32 /\
+      read_num cops F32 (write_num cops F32 n) = n.
+  Proof.
+    exists [2 ^ 63], (2 ^ 63). split; [left; reflexivity|]. split; [repeat constructor; unfold wfnum; cbn; lia|].
+    split; [vm_compute; reflexivity|]. split; [vm_compute; discriminate|]. split; vm_compute; reflexivity.
   Qed.
 End BinP.
